@@ -37,6 +37,9 @@ type Mod struct {
 	Name    string   `json:"name"`
 	Items   []Item   `json:"items,omitempty"`
 	Imports []Import `json:"imports,omitempty"`
+	// Bare: the module declares no singleton (with no globals either its init routine is empty);
+	// its initialisation is then not observable and not judged.
+	Bare bool `json:"bare,omitempty"`
 }
 
 // Graph is a whole program: Mods[0] is the entry module ("main").
@@ -146,7 +149,9 @@ func Render(g *Graph, lk *Link) Rendered {
 				emit(fmt.Sprintf("import { %s } from %s;", strings.Join(parts, ", "), im.From))
 			}
 		}
-		emit(singletonOf(m.Name) + " = int;")
+		if !m.Bare {
+			emit(singletonOf(m.Name) + " = int;")
+		}
 		for _, it := range m.Items {
 			pub := ""
 			if it.Pub {
@@ -261,6 +266,9 @@ func Describe(g *Graph) string {
 				}
 			}
 			ims = append(ims, fmt.Sprintf("{%s}<-%s", strings.Join(ns, ","), im.From))
+		}
+		if m.Bare {
+			its = append(its, "no singleton")
 		}
 		parts = append(parts, fmt.Sprintf("%s[%s | %s]", m.Name, strings.Join(its, "; "), strings.Join(ims, " ")))
 	}
